@@ -756,11 +756,7 @@ def r4b_which_text_is_compared(ctx):
                 allfacts = list(facts) + [fa for fa in graph.short_circuit_facts(n.ast, c)]
                 stored = isinstance(n.ast, (ast.Assign, ast.Return)) or n.kind == 'test'
                 sites.append((n, c, kinds, allfacts, stored))
-    rep.floor('C02.R4b', 'comparisons in check_got_vs_want', len(sites), 3)
-    # which comparisons run in which situation is read off the conditions that dominate them; a function that leaves early between two
-    # comparisons (`if flag: return flag`) selects by paths instead, which this evaluation does not follow: not judged
-    n_rets = sum(1 for n in g.nodes if not n.dup and n.kind == 'stmt' and isinstance(n.ast, ast.Return))
-    need(n_rets <= 1, 'C02.R4b: check_got_vs_want returns from %d places: which comparison runs in which situation is decided by early exits, not by the conditions around the comparisons' % n_rets)
+    rep.floor('C02.R4b', 'comparisons in check_got_vs_want', len(sites), 2)
 
     class _Unknown(Exception):
         pass
@@ -783,6 +779,8 @@ def r4b_which_text_is_compared(ctx):
             return env[0] != isinstance(e.ops[0], ast.Is)
         if is_name(e, 'got_stdout'):
             return env[1]
+        if isinstance(e, ast.Call) and is_name(e.func, 'bool') and len(e.args) == 1 and not e.keywords:
+            return truth(e.args[0], node, env, depth)
         if is_cmp_call(e):
             return env[2]
         if isinstance(e, ast.Name) and depth < 4:
@@ -800,11 +798,48 @@ def r4b_which_text_is_compared(ctx):
     have = set()
     for (n, c, kinds, allfacts, stored) in sites:
         need('?' not in kinds, 'C02.R4b: where the text compared by %s comes from was not recognised' % ctx.src(c))
+    site_ids = {id(n) for (n, _c, _k, _f, _s) in sites}
+
+    def walk(env, n_=None, seen_=None):
+        """the comparison sites one execution visits in the situation env: every test on the way is decided by the situation (early exits
+        included); a test the situation does not decide may go either way as long as that makes no difference to the comparisons reached"""
+        n_ = g.entry if n_ is None else n_
+        seen_ = set() if seen_ is None else set(seen_)
+        got_ = set()
+        while n_ is not None and id(n_) not in seen_:
+            seen_.add(id(n_))
+            if id(n_) in site_ids:
+                got_.add(id(n_))
+            if n_.kind == 'stmt' and isinstance(n_.ast, (ast.Return, ast.Raise)):
+                break
+            if n_.kind == 'test':
+                branches = [b for b in n_.nsucc() if b.kind == 'branch']
+                try:
+                    t_ = truth(n_.ast, n_, env)
+                except _Unknown:
+                    alts = [frozenset(walk(env, b, seen_)) for b in branches]
+                    if len(set(alts)) > 1:
+                        raise
+                    return got_ | (set(alts[0]) if alts else set())
+                nxt = [b for b in branches if b.attrs.get('polarity') is t_]
+                need(len(nxt) == 1, 'C02.R4b: branch of `%s` not found in the flow graph' % ctx.src(n_.ast))
+                n_ = nxt[0]
+                continue
+            nxt = n_.nsucc()
+            if not nxt:
+                break
+            need(len(nxt) == 1, 'C02.R4b: the flow of check_got_vs_want forks at `%s` without a test this evaluation can decide' % (ctx.src(n_.ast) if isinstance(getattr(n_, 'ast', None), ast.AST) else n_.kind))
+            n_ = nxt[0]
+        return got_
     for (env, branch, want_kinds) in SITUATIONS:
+        try:
+            visited = walk(env)
+        except _Unknown as ex:
+            raise AnalysisError('C02.R4b: a condition of check_got_vs_want was not recognised (%s)' % ex)
         reached = []
         for (n, c, kinds, allfacts, stored) in sites:
             try:
-                on = all(truth(fa.expr, fa.origin.attrs['test'] if getattr(fa, 'origin', None) is not None and fa.origin.kind == 'branch' else n, env) == fa.polarity for fa in allfacts)
+                on = id(n) in visited and all(truth(fa.expr, n, env) == fa.polarity for fa in graph.short_circuit_facts(n.ast, c))
             except _Unknown as ex:
                 raise AnalysisError('C02.R4b: the branch of %s was not recognised (%s)' % (ctx.src(c), ex))
             if on:
